@@ -296,6 +296,61 @@ func (e *Engine) ifaceCallAsserts(fr *Frame, st *State, it types.Type, m *types.
 	}
 }
 
+// ifaceCallAssumes: assume_call / ghost_call clauses naming an interface method.
+func (e *Engine) ifaceCallAssumes(fr *Frame, st *State, it types.Type, m *types.Func, recv SV, args []SV, rv SV) {
+	n, ok := types.Unalias(it).(*types.Named)
+	if !ok {
+		return
+	}
+	short := n.Obj().Name() + "." + m.Name()
+	long := short
+	if n.Obj().Pkg() != nil {
+		long = n.Obj().Pkg().Name() + "." + short
+	}
+	sig := m.Type().(*types.Signature)
+	for _, ca := range e.curContract.CallAssumes {
+		if ca.Text != short && ca.Text != long {
+			continue
+		}
+		env := e.loopEnv(fr, st).with("recv", TV{V: recv, T: it})
+		for j := 0; j < sig.Params().Len() && j < len(args); j++ {
+			env = env.with(fmt.Sprintf("arg%d", j), TV{V: args[j], T: sig.Params().At(j).Type()})
+		}
+		r := sig.Results()
+		for j := 0; j < r.Len(); j++ {
+			v := rv
+			if r.Len() > 1 {
+				v = rv.(*TupleSV).E[j]
+			}
+			env = env.with(fmt.Sprintf("result%d", j), TV{V: v, T: r.At(j).Type()})
+		}
+		if ca.Ghost {
+			be, ok := ca.Cl.Expr.(*ast.BinaryExpr)
+			var call *ast.CallExpr
+			if ok {
+				call, ok = be.X.(*ast.CallExpr)
+			}
+			if !ok || len(call.Args) != 1 {
+				panic(fmt.Sprintf("contract error: ghost_call %s: need ghost(g) = expr", ca.Text))
+			}
+			g := call.Args[0].(*ast.Ident).Name
+			tv := e.eval(env, be.Y)
+			if tv.Konst != nil {
+				st.ghost[g] = tv.Konst.String()
+			} else {
+				st.ghost[g] = e.vc.define("G_"+g, e.ghostSort(g), e.flatten(tv.T, tv.V)[0])
+			}
+			continue
+		}
+		t, err := e.tryEvalBool(env, ca.Cl.Expr)
+		if err != nil {
+			panic(fmt.Sprintf("contract error: assume_call %s: %v", ca.Text, err))
+		}
+		e.vc.assume(st.pc, t)
+		e.vc.usedExt["assumed at calls of "+ca.Text+" in "+e.curContract.Key+": "+ca.Cl.Text] = true
+	}
+}
+
 func (e *Engine) zeroOrNil(t types.Type) SV {
 	if t == nil {
 		return nil
@@ -780,7 +835,11 @@ func (e *Engine) invoke(fr *Frame, st *State, c *ssa.CallCommon, recv SV, args [
 	iv := recv.(*IfaceSV)
 	e.vc.oblige(e.oname(fr, "safety:nil#"), st.pc, not(fmt.Sprintf("(= %s 0)", iv.Tag)), "method call on nil interface: "+e.posStr(pos)+" "+key)
 	if ct, ok := e.db.Funcs[key]; ok {
-		return e.applyIfaceContract(fr, st, ct, m, recv, args, resT, pos)
+		rv := e.applyIfaceContract(fr, st, ct, m, recv, args, resT, pos)
+		if fr != nil && fr.top && e.curContract != nil && len(e.curContract.CallAssumes) > 0 {
+			e.ifaceCallAssumes(fr, st, it, m, recv, args, rv)
+		}
+		return rv
 	}
 	// closed-world dispatch: an unexported interface of the repository can only be
 	// implemented inside its own package
